@@ -585,6 +585,12 @@ def t_reorder_definitions(rng, doc):
     return d
 
 
+def t_reverse_definitions(rng, doc):
+    d = copy.deepcopy(doc)
+    d["defs"].reverse()
+    return d
+
+
 def t_reorder_selections(rng, doc):
     d = copy.deepcopy(doc)
 
@@ -689,6 +695,7 @@ def t_rename_variables(rng, doc):
 
 TRANSFORMS = [
     ("reorder_definitions", t_reorder_definitions),
+    ("reverse_definitions", t_reverse_definitions),
     ("reorder_selections", t_reorder_selections),
     ("reorder_arguments", t_reorder_arguments),
     ("rename_aliases", t_rename_aliases),
